@@ -1,5 +1,6 @@
 import Pywbem.Model.MofStr
 import Pywbem.Model.MofLex
+import Pywbem.Model.MofVal
 open Lean Pywbem.Proto Pywbem.Model
 
 /-! C08 driver.  Strings travel as arrays of code points.  Input line = {"op":..., ...}:
@@ -11,6 +12,9 @@ open Lean Pywbem.Proto Pywbem.Model
         ITEM = null | {"s":S} | {"c":S} | {"l":S}
   {"op":"fix","tok":S}                                              -> {"ok":S} | {"exc":..}
   {"op":"lexstr","text":S} / {"op":"lexchar","text":S}              -> {"tok":S,"rest":n} | {"tok":null}
+  {"op":"valmof","ty":T,"v":VAL|[VAL..],"indent","maxline","pos","es","avoid"} -> {"ok":{"mof","pos"}} | {"exc"}
+        VAL = null | {"s":S} | {"c":S} | {"b":bool} | {"i":"dec"} | {"r":S str(float)} | {"d":S str(datetime)} | {"ref":S uri}
+  {"op":"valread","ty":T,"arr":bool,"text":S}                         -> {"v":VAL|[VAL..]} | {"none":true}
   {"op":"lexnum","text":S}   -> {"tok":"float","text":S,"rest":n} | {"tok":"int","v":"dec","rest":n} | {"tok":"error",..} | {"tok":null}
   {"op":"intstr","v":"dec"}  -> {"out":S}
   {"op":"strlist","text":S}                                         -> {"lex":null} | {"ok":S} | {"exc":..}
@@ -43,6 +47,50 @@ def parseItem (j : Json) : MofStr.Item :=
     | _, _, .arr a => .lit (a.toList.filterMap jsonToNat?)
     | _, _, _ => .null
 
+/-- driver codec: Python's own texts are the carriers (str(float), str(CIMDateTime), to_wbem_uri()) -/
+def drvCodec : MofVal.Codec :=
+  { F := List Nat, D := List Nat, R := List Nat, realStr := id, realParse := some, dtStr := id, dtParse := some,
+    refStr := id, refParse := some }
+
+def parseScalar (j : Json) : MofVal.Scalar drvCodec :=
+  match j with
+  | .null => .null
+  | _ =>
+    match getField j "s", getField j "c", getField j "b", getField j "i", getField j "r", getField j "d",
+      getField j "ref" with
+    | .arr a, _, _, _, _, _, _ => .str (a.toList.filterMap jsonToNat?)
+    | _, .arr a, _, _, _, _, _ => .char16 (a.toList.filterMap jsonToNat?)
+    | _, _, .bool b, _, _, _, _ => .bool b
+    | _, _, _, .str t, _, _, _ => .int (t.toInt?.getD 0)
+    | _, _, _, _, .arr a, _, _ => .real (a.toList.filterMap jsonToNat?)
+    | _, _, _, _, _, .arr a, _ => .datetime (a.toList.filterMap jsonToNat?)
+    | _, _, _, _, _, _, .arr a => .ref (a.toList.filterMap jsonToNat?)
+    | _, _, _, _, _, _, _ => .null
+
+def parseValueJ (j : Json) : MofVal.Value drvCodec :=
+  match j with
+  | .arr a => .array (a.toList.map parseScalar)
+  | x => .scalar (parseScalar x)
+
+def scalarJ (s : MofVal.Scalar drvCodec) : Json :=
+  match s with
+  | .null => Json.null
+  | .str v => Json.mkObj [("s", natsToJson v)]
+  | .char16 v => Json.mkObj [("c", natsToJson v)]
+  | .bool b => Json.mkObj [("b", b)]
+  | .int v => Json.mkObj [("i", intToJson v)]
+  | .real x => Json.mkObj [("r", natsToJson x)]
+  | .datetime d => Json.mkObj [("d", natsToJson d)]
+  | .ref r => Json.mkObj [("ref", natsToJson r)]
+
+def valueJ (v : MofVal.Value drvCodec) : Json :=
+  match v with
+  | .scalar s => scalarJ s
+  | .array xs => Json.arr (xs.map scalarJ).toArray
+
+def typeOf (j : Json) (k : String) : MofVal.CimType :=
+  ((getStr j k).bind MofVal.CimType.ofName).getD .string
+
 def handle (j : Json) : Json :=
   let indent := (getNat j "indent").getD 0
   let maxline := (getNat j "maxline").getD 80
@@ -69,6 +117,12 @@ def handle (j : Json) : Json :=
     match MofLex.lexCharValue (getNats j "text") with
     | some (t, r) => Json.mkObj [("tok", natsToJson t), ("rest", (r.length : Nat))]
     | none => Json.mkObj [("tok", Json.null)]
+  | some "valmof" =>
+    resJson (MofVal.valueToMof drvCodec (typeOf j "ty") (parseValueJ (getField j "v")) indent maxline pos es avoid)
+  | some "valread" =>
+    match MofVal.parseValue drvCodec (typeOf j "ty") ((getBool j "arr").getD false) (getNats j "text") with
+    | none => Json.mkObj [("none", true)]
+    | some v => Json.mkObj [("v", valueJ v)]
   | some "lexnum" =>
     match MofLex.lexNumber (getNats j "text") with
     | none => Json.mkObj [("tok", Json.null)]
